@@ -17,6 +17,7 @@ inductive Err
   | syntax     -- strconv.ErrSyntax
   | range      -- strconv.ErrRange
   | other      -- time.ParseDuration / base64 / fmt errors
+  | byteRange  -- a JsByte element outside 0…255 was refused (which error value is returned is not fixed by the property)
 deriving DecidableEq, Repr
 
 inductive Res (α : Type)
@@ -118,7 +119,7 @@ def quote : Nat := 34
 /-- `b[1 : len(b)-1]` -/
 def inner (b : Bytes) : Bytes := (b.drop 1).dropLast
 
-def isQuoted (b : Bytes) : Bool := b.head? = some quote && b.getLast? = some quote
+def isQuoted (b : Bytes) : Bool := decide (b.head? = some quote ∧ b.getLast? = some quote)
 
 def strip (w : Wrap) (b : Bytes) : Stripped :=
   if b.length < w.minLen then .invalid
@@ -156,8 +157,8 @@ def decodeInt (w : Wrap) (b : Bytes) : Res Int :=
   | .bare s => runParser w.parser s
   | .quoted s => if w.emptyZero && s.isEmpty then .ok 0 else runParser w.parser s
 
-def encodeInt (v : Int) : Bytes := quote :: fmtInt 10 v ++ [quote]
-def encodeNat (v : Nat) : Bytes := quote :: fmtNat 10 v ++ [quote]
+def encodeInt (v : Int) : Bytes := quote :: (fmtInt 10 v ++ [quote])
+def encodeNat (v : Nat) : Bytes := quote :: (fmtNat 10 v ++ [quote])
 
 /-! ## JsByte -/
 
@@ -179,7 +180,7 @@ def splitSlash : Bytes → List Bytes
 def convByte (k : ByteConv) (t : Int) : Res Nat :=
   match k with
   | .wrap => .ok (t % 256).toNat
-  | .rangeChecked => if 0 ≤ t ∧ t ≤ 255 then .ok t.toNat else .err .range
+  | .rangeChecked => if 0 ≤ t ∧ t ≤ 255 then .ok t.toNat else .err .byteRange
   | .unknown => .err .other
 
 def convPieces (k : ByteConv) : List Bytes → Res (List Nat)
@@ -209,7 +210,7 @@ def joinSlash : List Bytes → Bytes
 /-- `JsByte.ToJS` -/
 def toJS (l : List Nat) : Bytes := joinSlash (l.map (fmtNat 10))
 
-def encodeBytes (l : List Nat) : Bytes := quote :: toJS l ++ [quote]
+def encodeBytes (l : List Nat) : Bytes := quote :: (toJS l ++ [quote])
 
 def decodeBytes (w : Wrap) (k : ByteConv) (b : Bytes) : Res (List Nat) :=
   if w.parser ≠ .fromString then .err .other else
@@ -289,8 +290,10 @@ def parseDurLoop : Nat → Nat → Bytes → Option Nat
                 let v1 := v * unit
                 let v2 := if 0 < f then v1 + f * unit / scale else v1
                 if 0 < f ∧ 2 ^ 63 < v2 then none
-                else if 2 ^ 63 < d + v2 then none
-                else parseDurLoop fuel (d + v2) s3
+                else
+                  -- `d += v` is a uint64 addition: 2^63 + 2^63 wraps to 0 and passes the test below (as in Go)
+                  let d' := (d + v2) % 2 ^ 64
+                  if 2 ^ 63 < d' then none else parseDurLoop fuel d' s3
 
 /-- `time.ParseDuration` -/
 def parseDuration (s : Bytes) : Res Int :=
@@ -333,7 +336,7 @@ def durMag (u : Nat) : Bytes :=
 
 def durString (d : Int) : Bytes := if d < 0 then 45 :: durMag (-d).toNat else durMag d.toNat
 
-def encodeDur (d : Int) : Bytes := quote :: durString d ++ [quote]
+def encodeDur (d : Int) : Bytes := quote :: (durString d ++ [quote])
 
 def decodeDur (w : Wrap) (b : Bytes) : Res Int :=
   if w.parser ≠ .parseDuration then .err .other else
@@ -445,13 +448,17 @@ def Facts.expected : Facts := ⟨true, true, true, true, true, true, true⟩
 def Wrap.Checked (w : Wrap) : Prop := w.kind = .checkedBare ∨ w.kind = .checkedOnly
 instance (w : Wrap) : Decidable w.Checked := by unfold Wrap.Checked; exact inferInstance
 
-/-- configurations for which the property theorems are proved -/
+/-- configurations for which the property theorems are proved: every wrapper looks at the quotes
+    before slicing, calls the expected parser, its length guard does not reject the shortest
+    encoder output, and JsByte range-checks its elements -/
 def Proved (c : Cfg) : Prop :=
   c.i64.Checked ∧ c.u64.Checked ∧ c.byte.Checked ∧ c.unixTime.Checked ∧ c.nanoTime.Checked ∧
   c.stamp.Checked ∧ c.dur.Checked ∧
   c.i64.parser = .atoi ∧ c.u64.parser = .parseUint64 ∧ c.byte.parser = .fromString ∧
   c.unixTime.parser = .atoi ∧ c.nanoTime.parser = .atoi ∧ c.stamp.parser = .atoi ∧
-  c.dur.parser = .parseDuration ∧ c.byteConv = .rangeChecked
+  c.dur.parser = .parseDuration ∧ c.byteConv = .rangeChecked ∧
+  c.i64.minLen ≤ 3 ∧ c.u64.minLen ≤ 3 ∧ c.unixTime.minLen ≤ 3 ∧ c.nanoTime.minLen ≤ 3 ∧ c.stamp.minLen ≤ 3 ∧
+  c.byte.minLen ≤ 2 ∧ c.dur.minLen ≤ 4
 instance : DecidablePred Proved := fun c => by unfold Proved; exact inferInstance
 
 /-- today's tree (before the repairs) -/
